@@ -102,6 +102,61 @@ func fragTextSlices(fn *ssa.Function, fOrig *types.Var) []*ssa.Slice {
 	return rv
 }
 
+// emission: a piece of the fragment's text handed to the output: a slice expression over
+// Fragment.Orig, or a call of a helper of the package that returns exactly such a slice of its
+// fragment parameter between two of its int parameters (`piece(f, lo, hi)`).
+type emission struct {
+	in     ssa.Instruction
+	lo, hi ssa.Value
+}
+
+func pieceHelper(h *ssa.Function, fOrig *types.Var) (fi, li, hi int, ok bool) {
+	if h == nil || h.Blocks == nil {
+		return
+	}
+	sls := fragTextSlices(h, fOrig)
+	if len(sls) != 1 {
+		return
+	}
+	sl := sls[0]
+	_, base := loadedField(stripConv(sl.X))
+	idx := func(v ssa.Value) int {
+		for i, p := range h.Params {
+			if ssa.Value(p) == v {
+				return i
+			}
+		}
+		return -1
+	}
+	if sl.Low == nil || sl.High == nil {
+		return
+	}
+	fi, li, hi = idx(base), idx(sl.Low), idx(sl.High)
+	ok = fi >= 0 && li >= 0 && hi >= 0
+	return
+}
+
+func fragEmissions(c *Ctx, fn *ssa.Function, fOrig *types.Var) []emission {
+	var rv []emission
+	eachInstr(fn, func(in ssa.Instruction) {
+		switch x := in.(type) {
+		case *ssa.Slice:
+			if fv, _ := loadedField(stripConv(x.X)); fv == fOrig {
+				rv = append(rv, emission{x, x.Low, x.High})
+			}
+		case *ssa.Call:
+			h := staticCallee(x.Common())
+			if h == nil || !c.InRepo(h) || funcPkgPath(h) != pkgHighlight {
+				return
+			}
+			if fi, li, hi, ok := pieceHelper(h, fOrig); ok && len(x.Common().Args) > hi && len(x.Common().Args) > li && len(x.Common().Args) > fi {
+				rv = append(rv, emission{x, x.Common().Args[li], x.Common().Args[hi]})
+			}
+		}
+	})
+	return rv
+}
+
 type keySet map[string]bool
 
 func (s keySet) clone() keySet {
@@ -136,9 +191,9 @@ func ruleC20R1(c *Ctx) {
 		}
 		startKey := "*p:" + fp.Name() + ".&Start"
 		endKey := "*p:" + fp.Name() + ".&End"
-		isText := map[*ssa.Slice]bool{}
-		for _, sl := range fragTextSlices(fn, fOrig) {
-			isText[sl] = true
+		isText := map[ssa.Instruction]emission{}
+		for _, e := range fragEmissions(c, fn, fOrig) {
+			isText[e.in] = e
 		}
 		if len(isText) == 0 {
 			c.Undecided("formatter "+name, c.Pos(fn.Pos()), "the formatter does not slice Fragment.Orig itself: shape not recognised")
@@ -203,23 +258,22 @@ func ruleC20R1(c *Ctx) {
 		transfer := func(b *ssa.BasicBlock, in keySet, rec func(finding)) keySet {
 			s := in.clone()
 			for _, ins := range b.Instrs {
-				switch x := ins.(type) {
-				case *ssa.Slice:
-					if !isText[x] {
-						continue
-					}
+				if e, isEm := isText[ins]; isEm {
 					lo := "#0"
-					if x.Low != nil {
-						lo = symKey(x.Low)
+					if e.lo != nil {
+						lo = symKey(e.lo)
 					}
 					if rec != nil {
-						rec(finding{x, s[lo], fmt.Sprintf("low bound %s; text emitted so far ends at %s", lo, s)})
+						rec(finding{ins, s[lo], fmt.Sprintf("low bound %s; text emitted so far ends at %s", lo, s)})
 					}
 					hi := "len(text)"
-					if x.High != nil {
-						hi = symKey(x.High)
+					if e.hi != nil {
+						hi = symKey(e.hi)
 					}
 					s = keySet{hi: true}
+					continue
+				}
+				switch x := ins.(type) {
 				case *ssa.Return:
 					if rec != nil {
 						rec(finding{x, s[endKey], fmt.Sprintf("text emitted so far ends at %s", s)})
@@ -280,7 +334,7 @@ func ruleC20R1(c *Ctx) {
 			}
 			transfer(b, in, func(f finding) {
 				switch f.in.(type) {
-				case *ssa.Slice:
+				case *ssa.Slice, *ssa.Call:
 					ns++
 					key := fmt.Sprintf("slice #%d of the fragment text in %s continues the emitted text", ns, name)
 					c.Check(f.ok, key, c.Pos(f.in.Pos()), f.msg,
@@ -378,16 +432,16 @@ func ruleC20R2(c *Ctx) {
 			continue
 		}
 		endKey := "*p:" + fp.Name() + ".&End"
-		for i, sl := range fragTextSlices(fn, fOrig) {
+		for i, e := range fragEmissions(c, fn, fOrig) {
 			key := fmt.Sprintf("bounds of slice #%d of the fragment text in %s", i+1, FuncName(fn))
-			if sl.Low == nil || sl.High == nil {
-				c.Violate(key, c.Pos(sl.Pos()), "a piece of the fragment text is cut without both bounds: the fragment's Start/End are not respected")
+			if e.lo == nil || e.hi == nil {
+				c.Violate(key, c.Pos(e.in.Pos()), "a piece of the fragment text is cut without both bounds: the fragment's Start/End are not respected")
 				continue
 			}
-			lo, hi := symKey(sl.Low), symKey(sl.High)
-			okLoHi := proveLE(fn, sl.Low, lo, hi, sl.Block(), 0)
-			okHiEnd := proveLE(fn, sl.High, hi, endKey, sl.Block(), 0)
-			c.Check(okLoHi && okHiEnd, key, c.Pos(sl.Pos()), "lo <= hi <= Fragment.End follows from the dominating comparisons",
+			lo, hi := symKey(e.lo), symKey(e.hi)
+			okLoHi := proveLE(fn, e.lo, lo, hi, e.in.Block(), 0)
+			okHiEnd := proveLE(fn, e.hi, hi, endKey, e.in.Block(), 0)
+			c.Check(okLoHi && okHiEnd, key, c.Pos(e.in.Pos()), "lo <= hi <= Fragment.End follows from the dominating comparisons",
 				fmt.Sprintf("no dominating comparison orders the bounds of this slice (lo<=hi proved: %v, hi<=Fragment.End proved: %v; lo=%s hi=%s): an unmerged, unsorted or out-of-fragment location makes the slice expression panic or emit text outside the fragment", okLoHi, okHiEnd, lo, hi))
 		}
 	}
@@ -584,77 +638,140 @@ func ruleC20R5(c *Ctx) {
 				c.Undecided(key, pos, "the candidate is not a loop-carried variable: shape not recognised")
 				return
 			}
-			// a loop over the list whose exhausted edge dominates the append
+			// (i) a loop over the list whose exhausted edge dominates the append
 			found, why := false, "no scan over the chosen fragments whose exhausted edge dominates the append"
-			for _, h := range fn.Blocks {
-				iff, ok := h.Instrs[len(h.Instrs)-1].(*ssa.If)
-				if !ok {
+			for _, sc := range overlapScans(fn, overlaps, lk, func(v ssa.Value) bool { return stripAssert(v) == cand }, &why) {
+				if !edgeDominates(sc.iff, 1, call.Block()) {
 					continue
 				}
-				cond, ok := iff.Cond.(*ssa.BinOp)
-				if !ok || cond.Op != token.LSS || lenOfKey(cond.Y) != lk {
+				// from the overlapping edge the append is reached only after the candidate was re-bound
+				if sc.hit == call.Block() || reachAvoiding(sc.hit, call.Block(), candPhi.Block()) {
+					why = "the append is reachable from the overlapping edge without the candidate having been replaced"
 					continue
 				}
-				if !edgeDominates(iff, 1, call.Block()) {
+				found = true
+			}
+			// (ii) or the false edge of a predicate helper that performs that scan over its parameters
+			for _, f := range condFactsAt(fn, call.Block(), 0) {
+				hc, ok := f.cond.(*ssa.Call)
+				if !ok || f.edge != 1 || found {
 					continue
 				}
-				body := h.Succs[0]
-				// the Overlaps(cand, list[idx]) test in the body, on every round
-				for _, b := range fn.Blocks {
-					if !body.Dominates(b) {
-						continue
+				h := staticCallee(hc.Common())
+				if h == nil || h.Blocks == nil || !c.InRepo(h) {
+					continue
+				}
+				ci, li := -1, -1
+				for k, a := range hc.Common().Args {
+					if stripAssert(a) == cand {
+						ci = k
 					}
-					for _, ins := range b.Instrs {
-						oc, ok := ins.(*ssa.Call)
-						if !ok || staticCallee(oc.Common()) != overlaps {
-							continue
-						}
-						a0, a1 := stripAssert(oc.Common().Args[0]), stripAssert(oc.Common().Args[1])
-						var elem ssa.Value
-						if a0 == cand {
-							elem = a1
-						} else if a1 == cand {
-							elem = a0
-						} else {
-							continue
-						}
-						ld, ok := isLoad(elem)
-						if !ok {
-							continue
-						}
-						ia, ok := ld.X.(*ssa.IndexAddr)
-						if !ok || symKey(ia.X) != lk || symKey(ia.Index) != symKey(cond.X) {
-							why = "the overlap test in the scan does not compare the candidate with the scan's element of the chosen list"
-							continue
-						}
-						everyRound := true
-						for _, p := range h.Preds {
-							if body.Dominates(p) && !b.Dominates(p) {
-								everyRound = false
-							}
-						}
-						if !everyRound {
-							why = "the overlap test is skipped on some rounds of the scan"
-							continue
-						}
-						oif, ok := b.Instrs[len(b.Instrs)-1].(*ssa.If)
-						if !ok || oif.Cond != ssa.Value(oc) {
-							why = "the result of the overlap test does not decide a branch"
-							continue
-						}
-						// from the overlapping edge the append is reached only after the candidate was re-bound
-						hit := b.Succs[0]
-						if hit == call.Block() || reachAvoiding(hit, call.Block(), candPhi.Block()) {
-							why = "the append is reachable from the overlapping edge without the candidate having been replaced"
-							continue
-						}
-						found = true
+					if symKey(a) == lk {
+						li = k
 					}
+				}
+				if ci < 0 || li < 0 || ci >= len(h.Params) || li >= len(h.Params) {
+					continue
+				}
+				hwhy := "the predicate helper does not scan its list parameter"
+				okHelper := false
+				for _, sc := range overlapScans(h, overlaps, symKey(h.Params[li]), func(v ssa.Value) bool { return stripAssert(v) == ssa.Value(h.Params[ci]) }, &hwhy) {
+					good := true
+					eachInstr(h, func(in ssa.Instruction) {
+						r, ok := in.(*ssa.Return)
+						if !ok || len(r.Results) != 1 {
+							return
+						}
+						b, isC := constBool(r.Results[0])
+						if !isC {
+							good = false
+							return
+						}
+						if !b && (!edgeDominates(sc.iff, 1, r.Block()) || sc.hit == r.Block() || reachAvoiding(sc.hit, r.Block(), nil)) {
+							good = false // "no overlap" is answered without the scan having been exhausted
+						}
+					})
+					if good {
+						okHelper = true
+					}
+				}
+				if okHelper {
+					found = true
+				} else {
+					why = "the predicate " + FuncName(h) + " that guards the append does not answer false only after an exhaustive overlap scan (" + hwhy + ")"
 				}
 			}
 			c.Check(found, key, pos, "behind the exhausted edge of a scan that tests the candidate against every chosen fragment", why+": overlapping fragments can be returned")
 		})
 	}
+}
+
+type overlapScan struct {
+	iff *ssa.If         // the scan's loop condition: idx < len(list)
+	hit *ssa.BasicBlock // successor taken when an element overlaps the candidate
+}
+
+// overlapScans: the loops of fn that run over the list named listKey and, on every round, test the
+// candidate against the round's element with Fragment.Overlaps and branch on the result.
+func overlapScans(fn *ssa.Function, overlaps *ssa.Function, listKey string, isCand func(ssa.Value) bool, why *string) []overlapScan {
+	var rv []overlapScan
+	for _, h := range fn.Blocks {
+		iff, ok := h.Instrs[len(h.Instrs)-1].(*ssa.If)
+		if !ok {
+			continue
+		}
+		cond, ok := iff.Cond.(*ssa.BinOp)
+		if !ok || cond.Op != token.LSS || lenOfKey(cond.Y) != listKey {
+			continue
+		}
+		body := h.Succs[0]
+		for _, b := range fn.Blocks {
+			if !body.Dominates(b) {
+				continue
+			}
+			for _, ins := range b.Instrs {
+				oc, ok := ins.(*ssa.Call)
+				if !ok || staticCallee(oc.Common()) != overlaps {
+					continue
+				}
+				a0, a1 := oc.Common().Args[0], oc.Common().Args[1]
+				var elem ssa.Value
+				if isCand(a0) {
+					elem = stripAssert(a1)
+				} else if isCand(a1) {
+					elem = stripAssert(a0)
+				} else {
+					continue
+				}
+				ld, ok := isLoad(elem)
+				if !ok {
+					continue
+				}
+				ia, ok := ld.X.(*ssa.IndexAddr)
+				if !ok || symKey(ia.X) != listKey || symKey(ia.Index) != symKey(cond.X) {
+					*why = "the overlap test in the scan does not compare the candidate with the scan's element of the chosen list"
+					continue
+				}
+				everyRound := true
+				for _, p := range h.Preds {
+					if body.Dominates(p) && !b.Dominates(p) {
+						everyRound = false
+					}
+				}
+				if !everyRound {
+					*why = "the overlap test is skipped on some rounds of the scan"
+					continue
+				}
+				oif, ok := b.Instrs[len(b.Instrs)-1].(*ssa.If)
+				if !ok || oif.Cond != ssa.Value(oc) {
+					*why = "the result of the overlap test does not decide a branch"
+					continue
+				}
+				rv = append(rv, overlapScan{iff, b.Succs[0]})
+			}
+		}
+	}
+	return rv
 }
 
 // ---- R6 -----------------------------------------------------------------------------------
